@@ -316,6 +316,9 @@ class FD:
             args = [self.eval(a, env) for a in e.args]
             kwargs = {k.arg: self.eval(k.value, env) for k in e.keywords}
             return self.calls[name](*args, **kwargs)
+        if isinstance(e.func, ast.Name) and e.func.id in env and callable(env[e.func.id]):
+            args = [self.eval(a, env) for a in e.args]
+            return env[e.func.id](*args)
         if isinstance(e.func, ast.Attribute):
             recv = self.eval(e.func.value, env)
             args = [self.eval(a, env) for a in e.args]
